@@ -15,7 +15,9 @@ RUNNER_LOOP = (RUN, 'runner.Runner.run_tests')
 FUNCTIONS = {
     'C01': LAYER_FNS + [RUNNER_LOOP],
     'C02': [(L, 'runner.handle_layer_failure'), (L, 'runner.tear_down_unneeded'), (L, 'runner.run_layer'),
-            RUN_TESTS, RUNNER_LOOP, ('runner_spawn', 'runner.spawn_layer_in_subprocess')],
+            RUN_TESTS, RUNNER_LOOP, ('runner_spawn', 'runner.spawn_layer_in_subprocess'),
+            # import errors are bad outcomes too: they reach the verdict through tests_from_suite / find_tests
+            ('find_c09', 'find.tests_from_suite'), ('select_c03', 'find.find_tests')],
     'C07': [('runner_spawn', 'runner.spawn_layer_in_subprocess'), ('process_c07', 'process.SubProcess.report')],
     'C04': [(L, 'runner.setup_layer'), (L, 'runner.tear_down_unneeded'), (L, 'runner.run_layer'),
             (L, 'runner.handle_layer_failure'), (RR, TR + '_restoreStdStreams'), (RR, TR + 'startTest'),
@@ -30,7 +32,8 @@ FUNCTIONS = {
     'C13': [(RR, TR + '__init__'), (RR, TR + '_setUpStdStreams'), (RR, TR + '_restoreStdStreams'),
             (RR, TR + 'startTest'), (RR, TR + 'stopTest')] + EVENTS + [PROTOCOL, RUN_TESTS],
     'C16': [(RR, TR + m) for m in ('addError', 'addFailure', 'addUnexpectedSuccess', 'addSubTest')]
-           + [PROTOCOL, RUN_TESTS, RUNNER_LOOP],
+           + [PROTOCOL, RUN_TESTS, RUNNER_LOOP]
+           + LAYER_FNS[2:] + [(L, 'runner.handle_layer_failure')],     # the final tear-down and verdict on every path
     'C19': [(RR, TR + 'startTest'), (RR, TR + 'addSkip'), (RR, TR + 'stopTest'), ('threads_c19', 'threadsupport.enumerate')],
     'C17': [('formatter_c17', 'formatter.XMLOutputFormattingWrapper._record'), ('formatter_c17', 'formatter.parse_unittest')],
     'C18': [('features_c18', f) for f in (
@@ -50,7 +53,8 @@ FUNCTIONS = {
             ('select_c03', 'filter.Filter.global_setup'), ('select_c03', 'listing.Listing.global_setup'),
             ('select_c03', 'listing.Listing.report'), ('runner_order', 'runner.order_by_bases'),
             ('runner_order', 'runner.Runner.ordered_layers'), RUN_TESTS, RUNNER_LOOP,
-            ('runner_spawn', 'runner.spawn_layer_in_subprocess'), ('features_c18', 'runner.Runner.run')],
+            ('runner_spawn', 'runner.spawn_layer_in_subprocess'), ('features_c18', 'runner.Runner.run'),
+            ('find_c14', 'find.find_test_files'), ('runner_sched', 'runner.resume_tests')],
     'C06': [('runner_sched', 'runner.resume_tests'), ('runner_spawn', 'runner.spawn_layer_in_subprocess'),
             ('process_c07', 'process.SubProcess.report')],      # sentence 1 composes the lossless transfer (C07)
     'C14': [('find_c14', f) for f in ('find.strip_py_ext', 'find.contains_init_py', 'find.find_test_files_',
@@ -58,7 +62,8 @@ FUNCTIONS = {
                                       'options.get_options@prefix')],
     'C10': [('runner_order', f) for f in ('runner.gather_layers', 'runner.order_by_bases', 'runner.order_by_bases@unitfirst',
                                           'runner.layer_sort_key', 'runner.layer_sort_key._gather',
-                                          'runner.Runner.ordered_layers')],
+                                          'runner.Runner.ordered_layers')]
+           + [('runner_sched', 'runner.resume_tests')],       # resumed layers are started in the order they are handed over
 }
 
 NATIVE = {p: p.lower() for p in ['C%02d' % i for i in range(1, 21)]}
